@@ -7,8 +7,8 @@ from concurrent.futures import ThreadPoolExecutor
 
 from .common import CARGO_ENV, ENGINE, NPROC, TOOLCHAIN, MachineryError, ensure_dir, log, run, WORK
 
-_BIN = os.path.join(ENGINE, "target", "debug", "tvadapter")
-_built = False
+_BIN = os.environ.get("VERIF_ADAPTER_BIN") or os.path.join(ENGINE, "target", "debug", "tvadapter")   # override: development aid (coverage build)
+_built = bool(os.environ.get("VERIF_ADAPTER_BIN"))
 
 
 def build(features=None):
